@@ -11,13 +11,22 @@
       `write_union` selects (C09 is the property about that selection), at any depth;
     * `c15_core_is_spec`    — on that fragment the core encoder and the full specification encoder
       agree (the fragment only removes inputs, it does not change outputs);
-    * `c15_bytes_strings`   — a byte string written as code points 0–255 decodes back to itself.
-  NOT PROVED (checked by the harness on the implementation and against the model): the read-back
-  clause `json_reader(json_writer(r)) = r`, agreement with the binary codec, defaults of absent
-  fields; and everything about the grammar machine that sequences the encoder/decoder calls
+    * `c15_bytes_strings`   — a byte string written as code points 0–255 decodes back to itself;
+    * `c15_read_back`       — the read-back clause, at any depth: on that fragment the value `json_writer`
+      emits is the specification's encoding AND `json_reader` (model Json.decode: the reader's traversal
+      with the JSON decoder's calls) applied to it with the same schema returns the record as written
+      (Spec.written: absent fields replaced by their defaults, a union value as the value of the branch
+      it was written under, sequences as lists, bytearray as bytes; numbers, strings, keys as given);
+      the side conditions are those that make "the record as written" defined: distinct dict keys,
+      distinct field names, no two union branches of one name, named-schema table holding named types.
+  NOT PROVED (checked by the harness on the implementation and against the model): agreement with the
+  binary codec (C01's normal form differs from `Spec.written` only in single-precision rounding and
+  int → float conversion under float/double), defaults of fields absent from a JSON text that
+  `json_writer` did not produce; and everything about the grammar machine that sequences the encoder/decoder calls
   (fastavro/io/parser.py), which is not modelled — see known findings F5a–d, F14, F27, F28.
 -/
 import Proofs.Json
+import Proofs.JsonBack
 
 open Binary Json JsonProofs
 
@@ -33,6 +42,13 @@ theorem c15_core_is_spec (pick : Nat → List Schema → Val → Option (Nat × 
 theorem c15_bytes_strings (b : Bytes) : latin1Enc (latin1Dec b) = some b ∧ Spec.codePoints b = latin1Dec b :=
   ⟨latin1_roundtrip b, rfl⟩
 
+open JsonBack in
+theorem c15_read_back (env : Env) (he : EnvNamed env) (o : WOpts) (fuel : Nat) (s : Schema) (v j w : Val)
+    (hj : Spec.jsonEncodeCore (fun f bs v => (choose f env o bs v).toOption) fuel env s v = some j)
+    (hw : Spec.written (fun f bs v => (choose f env o bs v).toOption) fuel env s v = some w) :
+    encode true fuel env o s v = .ok j ∧ decode fuel env s j = .ok w :=
+  ⟨encode_eq_spec env o fuel s v j hj, decode_encode _ env he fuel s v j w hj hw⟩
+
 /-! non-vacuity: a record with a nullable union of a named type, bytes and an enum -/
 def c15schema : Schema := .record "ns.R" [
   .mk "u" (.union [.prim .null false none, .enum "ns.E" ["A", "B"] none []]) none [],
@@ -42,4 +58,9 @@ def c15value : Val := .dict [(.str "u", .str "B"), (.str "b", .bytes [0, 255]), 
 
 example : (match Spec.jsonEncodeCore (fun f bs v => (choose f [] {} bs v).toOption) 6 [] c15schema c15value with
     | some (.dict [(.str "u", .dict [(.str "ns.E", .str "B")]), (.str "b", .str _), (.str "m", .dict [(.str "k", .float _)])]) => true
+    | _ => false) = true := by decide +kernel
+
+example : JsonBack.EnvNamed [] := by intro n d h; cases h
+example : (match Spec.written (fun f bs v => (choose f [] {} bs v).toOption) 6 [] c15schema c15value with
+    | some (.dict [(.str "u", .str "B"), (.str "b", .bytes [0, 255]), (.str "m", .dict [(.str "k", .float _)])]) => true
     | _ => false) = true := by decide +kernel
